@@ -75,6 +75,12 @@ class Spec:
         return
 
 
+def _watchdog_kill(io):
+    """did the harness's own per-case watchdog (SIGALRM) end this case?  (`crash signal 14` line printed by the forking harnesses, or the
+    harness process itself killed by the signal)"""
+    return io.get("rc") in (-14, 142) or any(str(l).startswith("crash signal 14") for l in io.get("out", []))
+
+
 def _run_suite(spec, suite, tier, rng, ctx, budget_scale=1):
     res = {"name": suite.name, "evaluations": 0, "nontrivial": 0, "disagreements": [], "oracle_fail": [],
            "crashes": [], "samples": [], "stats": {}}
@@ -99,6 +105,20 @@ def _run_suite(spec, suite, tier, rng, ctx, budget_scale=1):
         for c in cases:
             cid = str(c["id"])
             io = impl.get(cid, {"out": [], "rc": -1, "err": "no output"})
+            if _watchdog_kill(io) and res.get("_wd_reproduced", 0) < 3 and res.get("_wd_tried", 0) < 12:
+                res["_wd_tried"] = res.get("_wd_tried", 0) + 1      # bounded: a change that makes hundreds of cases hang is not re-run case by case
+                # the per-case watchdog of the harness (alarm() in the forked child -> SIGALRM) fired.  The harnesses are deterministic:
+                # a genuine hang fires again when the case runs alone; a child starved by machine load does not (seen once: thorough
+                # C17 at load 50, reported as a crash although the case passes).  Re-run it alone, twice at most; only what reproduces is
+                # evaluated as a crash, the rest is evaluated on the re-run's output and counted in the evidence.
+                for _ in range(2):
+                    again = core.run_cases(exe, [c], chunk=1, timeout=max(suite.timeout, 60), args=suite.harness_args()).get(cid)
+                    if again is not None and not _watchdog_kill(again):
+                        io = again
+                        res["watchdog_under_load"] = res.get("watchdog_under_load", 0) + 1
+                        break
+                else:
+                    res["_wd_reproduced"] = res.get("_wd_reproduced", 0) + 1
             iout = suite.normalize(io["out"])
             outs[cid] = iout
             res["evaluations"] += 1
@@ -453,7 +473,7 @@ def run_check(spec, tier="quick", replay=None):
                 "non-trivial = the suite's own rule (see suites[].nontrivial_rule)",
         "samples": samples,
         "suites": [{"name": s.name, "cases": r["cases"], "nontrivial": r["nontrivial"], "disagreements": len(r["disagreements"]),
-                    "oracle_failures": len(r["oracle_fail"]), "crashes": len(r["crashes"]), "not_evaluated_after_hangs": r.get("not_evaluated", 0),
+                    "oracle_failures": len(r["oracle_fail"]), "crashes": len(r["crashes"]), "not_evaluated_after_hangs": r.get("not_evaluated", 0), "watchdog_kills_not_reproduced_alone": r.get("watchdog_under_load", 0),
                     "input_distribution": r["stats"],
                     "nontrivial_rule": getattr(s, "nontrivial_rule", "every case")} for s, r in suite_results],
         "broken_obligations": proof_broken[:10],
